@@ -73,8 +73,8 @@ Definition db_of_kdf (k : kdf) : dbpw :=
   | K_CRYPT_SHA512 h => D_CRYPT_SHA512 h
   end.
 
-(* TryFrom<DbPasswordV1> for Password — every arm is Ok(..); NOTE the last arm (lib.rs:487-489):
-   DbPasswordV1::CRYPT_SHA512 { h } => Kdf::CRYPT_SHA256 { h } *)
+(* TryFrom<DbPasswordV1> for Password (lib.rs:423) — every arm is Ok(..) of the constructor of
+   the same name (repaired tree, /repo ef762e7) *)
 Definition kdf_of_db (d : dbpw) : option kdf :=
   match d with
   | D_TPM_ARGON2ID m t p v s k => Some (K_TPM_ARGON2ID m t p v s k)
@@ -91,15 +91,17 @@ Definition kdf_of_db (d : dbpw) : option kdf :=
   | D_NT_MD4 h => Some (K_NT_MD4 h)
   | D_CRYPT_MD5 s h => Some (K_CRYPT_MD5 s h)
   | D_CRYPT_SHA256 h => Some (K_CRYPT_SHA256 h)
-  | D_CRYPT_SHA512 h => Some (K_CRYPT_SHA256 h)
+  | D_CRYPT_SHA512 h => Some (K_CRYPT_SHA512 h)
   end.
 
-(* THE PROPOSED FIX (not the code; fixes/C12.patch): the last arm keeps its own constructor *)
-Definition kdf_of_db_fixed (d : dbpw) : option kdf :=
+(* THE CODE BEFORE THE FIX (documentation of the repaired defect, not the current code): the
+   last arm was  DbPasswordV1::CRYPT_SHA512 { h } => Kdf::CRYPT_SHA256 { h } *)
+Definition kdf_of_db_prefix (d : dbpw) : option kdf :=
   match d with
-  | D_CRYPT_SHA512 h => Some (K_CRYPT_SHA512 h)
+  | D_CRYPT_SHA512 h => Some (K_CRYPT_SHA256 h)
   | _ => kdf_of_db d
   end.
+Definition reload_prefix (k : kdf) : option kdf := kdf_of_db_prefix (db_of_kdf k).
 
 Definition reload (k : kdf) : option kdf := kdf_of_db (db_of_kdf k).
 
@@ -120,8 +122,6 @@ Definition dtag (d : dbpw) : N :=
   end.
 Definition TAG_CRYPT_SHA256 : N := 13.
 Definition TAG_CRYPT_SHA512 : N := 14.
-(* constructor of the reloaded password as a function of the original constructor *)
-Definition ktag_after_reload (t : N) : N := if t =? TAG_CRYPT_SHA512 then TAG_CRYPT_SHA256 else t.
 
 (* ---- Password::verify_ctx without an HSM context, over abstract primitives *)
 Record oracle := mkoracle {
@@ -221,8 +221,7 @@ Definition tag_of (k : vskind) : dbtag :=
   | VK_Refer => T_RF | VK_Image => T_IM | VK_Other => T_Other
   end.
 
-(* from_db_valueset_v2: the loader each variant is handed to (None = Err).
-   NOTE (valueset/mod.rs:1049): JwsKeyRs256(set) => ValueSetJwsKeyEs256::from_dbvs2(&set) *)
+(* from_db_valueset_v2: the loader each variant is handed to (None = Err); repaired tree *)
 Definition dispatch (t : dbtag) : option vskind :=
   match t with
   | T_U8 => Some VK_Utf8 | T_I8 => Some VK_Iutf8 | T_N8 => Some VK_Iname | T_UU => Some VK_Uuid
@@ -235,7 +234,7 @@ Definition dispatch (t : dbtag) : option vskind :=
   | T_PB => Some VK_PublicBinary | T_IT => Some VK_IntentToken | T_EM => Some VK_EmailAddress
   | T_PK => Some VK_Passkey | T_DK => Some VK_AttestedPasskey | T_AS => Some VK_Session
   | T_AT => Some VK_ApiTokenSet | T_OZ => Some VK_Oauth2Session | T_JE => Some VK_JwsKeyEs256
-  | T_JR => Some VK_JwsKeyEs256
+  | T_JR => Some VK_JwsKeyRs256
   | T_UH => Some VK_UiHint | T_TO => Some VK_TotpSecret | T_SA => Some VK_AuditLogString
   | T_PN | T_TE => None
   | T_IM => Some VK_Image | T_CT => Some VK_CredentialType | T_WC => Some VK_WebauthnAttestationCaList
@@ -244,9 +243,10 @@ Definition dispatch (t : dbtag) : option vskind :=
   | T_S256 => Some VK_Sha256 | T_MS => Some VK_Message | T_EK => None
   | T_Other => None
   end.
-(* THE PROPOSED FIX (not the code): JwsKeyRs256 goes to its own loader *)
-Definition dispatch_fixed (t : dbtag) : option vskind :=
-  match t with T_JR => Some VK_JwsKeyRs256 | _ => dispatch t end.
+(* THE CODE BEFORE THE FIX (documentation, not the current code), valueset/mod.rs:1049 was
+   JwsKeyRs256(set) => ValueSetJwsKeyEs256::from_dbvs2(&set) *)
+Definition dispatch_prefix (t : dbtag) : option vskind :=
+  match t with T_JR => Some VK_JwsKeyEs256 | _ => dispatch t end.
 
 Definition vskind_eqb (a b : vskind) : bool :=
   match a, b with
@@ -284,8 +284,8 @@ Definition dbtag_eqb (a b : dbtag) : bool :=
   end.
 
 (* Loading the stored form of a valueset of type k. A loader only accepts the payload written by
-   its own type: the one cross-type hand-over (an RSA private key DER given to the ES256 key
-   parser) is rejected by the parser (assumption, checked differentially). *)
+   its own type (before the fix an RSA private key DER was given to the ES256 key parser, which
+   rejects it). *)
 Definition vs_reload_with (disp : dbtag -> option vskind) (k : vskind) : option vskind :=
   match disp (tag_of k) with
   | Some p => if vskind_eqb p k then Some p else None
@@ -293,27 +293,28 @@ Definition vs_reload_with (disp : dbtag -> option vskind) (k : vskind) : option 
   end.
 Definition vs_reload := vs_reload_with dispatch.
 
-(* valuesets that embed passwords (credential: Password inside Credential; application password) *)
-Definition pw_tags_stable (pwtags : list N) : bool :=
-  forallb (fun t => ktag_after_reload t =? t) pwtags.
-(* does the reloaded valueset compare equal (ValueSetT::equal)?  Credential compares the password
-   material; ApplicationPassword::eq only compares uuid / (application,label). *)
-(* Besides KDF constructors (0..14) the mark list of a valueset may hold MARK_MSG_SUBSEC: a
-   Message whose expiry_time has a sub-second part. OutboundMessage::CredentialResetV1 stores
-   expiry_time with time::serde::timestamp, i.e. whole seconds (proto/src/v1/message.rs:13), so
-   the reloaded message carries the truncated time and compares unequal; it stores to the same
-   bytes again. *)
+(* The mark list of a valueset: KDF constructors (0..14) of embedded passwords (informative
+   only), and MARK_MSG_SUBSEC for a Message whose expiry_time has a sub-second part.
+   OutboundMessage::CredentialResetV1 stores expiry_time with time::serde::timestamp, i.e. whole
+   seconds (proto/src/v1/message.rs:13), so the reloaded message carries the truncated time and
+   compares unequal; it stores to the same bytes again (Part D). *)
 Definition MARK_MSG_SUBSEC : N := 100.
 Definition has_mark (m : N) (marks : list N) : bool := existsb (N.eqb m) marks.
-Definition expect_equal (k : vskind) (pwtags : list N) : bool :=
+(* does the reloaded valueset compare equal (ValueSetT::equal)? *)
+Definition expect_equal (k : vskind) (marks : list N) : bool :=
   match k with
-  | VK_Credential => pw_tags_stable pwtags
-  | VK_Message => negb (has_mark MARK_MSG_SUBSEC pwtags)
+  | VK_Message => negb (has_mark MARK_MSG_SUBSEC marks)
   | _ => true
   end.
-(* does the reloaded valueset store to the same bytes again? *)
-Definition expect_restore (k : vskind) (pwtags : list N) : bool :=
-  match k with VK_Credential | VK_ApplicationPassword => pw_tags_stable pwtags | _ => true end.
+(* does the reloaded valueset store to the same bytes again? always *)
+Definition expect_restore (k : vskind) (marks : list N) : bool := true.
+
+(* ================================================================== Part D: message expiry *)
+(* time::serde::timestamp: OffsetDateTime <-> whole unix seconds; times in ns since the epoch *)
+Definition NS : N := 1000000000.
+Definition msg_time_store (t : N) : N := t / NS.
+Definition msg_time_load (sec : N) : N := sec * NS.
+Definition msg_time_reload (t : N) : N := msg_time_load (msg_time_store t).
 
 (* ================================================================== Part C: entry frames *)
 Definition cid := (N * N)%type.      (* (timestamp ns, server id) *)
@@ -476,6 +477,8 @@ Inductive case :=
 | CPw (kt : N) (d : dbpw) (kt2 : N) (d2 : dbpw) (eq : bool) (vb va : list N)
 (* one stored password loaded and stored again: TryFrom<DbPasswordV1> then to_dbpasswordv1 *)
 | CLoad (d : dbpw) (kt2 : N) (d2 : dbpw)
+(* expiry_time (ns) of a queued CredentialResetV1 message before / after the round trip *)
+| CMsg (t t2 : N)
 (* one valueset: its type, KDF constructors of embedded passwords, the DbValueSetV2 tag written,
    type of the reloaded valueset (None = Err), `reloaded == original`, reloaded stores to the
    same bytes, other observations (len, proto strings, index keys, syntax, verify) unchanged *)
@@ -505,6 +508,7 @@ Definition agree (c : case) : bool :=
       | Some k2 => (ktag k2 =? kt2) && dbpw_eqb (db_of_kdf k2) d2
       | None => false
       end
+  | CMsg t t2 => msg_time_reload t =? t2
   | CVs k pw tag res same restore _ =>
       dbtag_eqb (tag_of k) tag && opt_kind_eqb (vs_reload k) res &&
       match res with
@@ -524,6 +528,7 @@ Definition pcheck (c : case) : bool :=
   match c with
   | CPw kt d kt2 d2 eq vb va => pcheck_pw_struct kt d kt2 d2 eq && nlist_eqb vb va
   | CLoad d kt2 d2 => (kt2 =? dtag d) && dbpw_eqb d d2
+  | CMsg t t2 => t2 =? t
   | CVs k _ _ res same restore obs => opt_kind_eqb res (Some k) && same && restore && obs
   | CDb st attrs out => db_spec st attrs out
   | CRefresh repl tomb st attrs out => repl_spec (fun c => mem (fst c) repl) tomb st attrs out
@@ -531,23 +536,19 @@ Definition pcheck (c : case) : bool :=
       repl_spec (fun c => mem (fst c) repl && within ranges (snd c)) [] st attrs out
   end.
 
-(* KNOWN CLASSES (both confirmed on the real code):
-   (1) a password whose KDF is CRYPT_SHA512 — alone, or embedded in a credential / application
-       password valueset, or in such a valueset inside an entry;
-   (2) a JwsKeyRs256 valueset, alone or inside an entry;
-   (3) (minor) a Message valueset whose expiry_time has a sub-second part. *)
-Definition value_known (k : vskind) (pw : list N) : bool :=
+(* KNOWN CLASS (KNOWN_FINDINGS.txt class=message-subsecond-expiry, confirmed on the real code):
+   a Message valueset whose expiry_time has a sub-second part. Nothing else is excused. *)
+Definition value_known (k : vskind) (marks : list N) : bool :=
   match k with
-  | VK_JwsKeyRs256 => true
-  | VK_Credential | VK_ApplicationPassword => negb (pw_tags_stable pw)
-  | VK_Message => has_mark MARK_MSG_SUBSEC pw
+  | VK_Message => has_mark MARK_MSG_SUBSEC marks
   | _ => false
   end.
 Definition attr_known (a : aval) : bool := negb (a_empty a) && value_known (a_kind a) (a_pw a).
 Definition known (c : case) : bool :=
   match c with
-  | CPw kt _ _ _ _ _ _ => kt =? TAG_CRYPT_SHA512
-  | CLoad d _ _ => dtag d =? TAG_CRYPT_SHA512
-  | CVs k pw _ _ _ _ _ => value_known k pw
+  | CPw _ _ _ _ _ _ _ => false
+  | CLoad _ _ _ => false
+  | CMsg t _ => negb (t mod NS =? 0)
+  | CVs k marks _ _ _ _ _ => value_known k marks
   | CDb _ attrs _ | CRefresh _ _ _ attrs _ | CIncr _ _ _ attrs _ => existsb attr_known attrs
   end.
